@@ -409,7 +409,10 @@ class FileDownloader(Resource, object):
 
                     # last-byte-pos
                     if last == '':
-                        last = filesize - 1
+                        # an open-ended range that starts at or beyond the
+                        # end of the file is well-formed but unsatisfiable
+                        # (416), not an unparseable header
+                        last = max(first, filesize - 1)
                     else:
                         last = int(last)
 
